@@ -449,11 +449,18 @@ func EVAL(ctx context.Context, ast MalType, env EnvType) (res MalType, e error) 
 			ast = quasiquote(a1)
 		case "defmacro":
 			fn, e := EVAL(ctx, a2, env)
-			fn = fn.(MalFunc).SetMacro()
 			if e != nil {
 				return nil, e
 			}
-			return env.Set(a1.(Symbol), fn), nil
+			malFn, ok := fn.(MalFunc)
+			if !ok {
+				return nil, lisperror.NewLispError(fmt.Errorf("defmacro requires a function (was of type %T)", fn), ast)
+			}
+			name, ok := a1.(Symbol)
+			if !ok {
+				return nil, lisperror.NewLispError(fmt.Errorf("cannot use '%T' as identifier", a1), ast)
+			}
+			return env.Set(name, malFn.SetMacro()), nil
 		case "macroexpand":
 			return macroexpand(ctx, a1, env)
 		case "try":
@@ -479,16 +486,19 @@ func EVAL(ctx context.Context, ast MalType, env EnvType) (res MalType, e error) 
 			switch first(last) {
 			case "catch":
 				finallyDo = nil
+				if len(last.(List).Val) < 3 {
+					return nil, lisperror.NewLispError(errors.New("catch must have 2 arguments at least"), ast)
+				}
 				catchBind = last.(List).Val[1]
 				catchDo = List{Val: last.(List).Val[2:]}
 				tryDo = List{Val: lst[1 : len(lst)-1]}
-				if len(catchDo.(List).Val) == 0 {
-					return nil, lisperror.NewLispError(errors.New("catch must have 2 arguments at least"), ast)
-				}
 			case "finally":
 				finallyDo = List{Val: last.(List).Val[1:]}
 				switch first(prelast) {
 				case "catch":
+					if len(prelast.(List).Val) < 3 {
+						return nil, lisperror.NewLispError(errors.New("catch must have 2 arguments at least"), ast)
+					}
 					catchBind = prelast.(List).Val[1]
 					catchDo = List{Val: prelast.(List).Val[2:]}
 					tryDo = List{Val: lst[1 : len(lst)-2]}
@@ -567,6 +577,9 @@ func EVAL(ctx context.Context, ast MalType, env EnvType) (res MalType, e error) 
 				ast = a2
 			}
 		case "fn":
+			if len(ast.(List).Val) < 2 {
+				return nil, lisperror.NewLispError(errors.New("fn requires a parameter list"), ast)
+			}
 			fn := MalFunc{
 				Eval:    EVAL,
 				Exp:     List{Val: append([]MalType{Symbol{Val: "do"}}, ast.(List).Val[2:]...)},
